@@ -20,6 +20,14 @@
             identity repeatable / stable / separating collections that differ in a member field, member
             order, member count or name (+ the 3 other processes); its file name only as Layer M
 
+      edit / cedit  HISTORIES on one (mutable) config object: build -> hash / file name -> edit ONE field in
+            place (plain attribute assignment of every field of the statement; item assignment into
+            maze_ctor_kwargs / endpoint_kwargs; applied_filters.append; the library's own in-place edits:
+            filter_by.collect_generation_meta() and update_self_config() on a dataset obtained from
+            from_config / generate, and a copying filter) -> hash / file name again, compared with a
+            FRESHLY constructed config holding the edited content and with load(serialize()) of the edited
+            object (ConfigId!ESpec / HashFollowsInv at design level; variant "memo_hash" rejected)
+
 Interpretation decisions
   * to_fname prints hash mod 10^5 as a number (no zero padding) -- DESIGN.md section 4.
   * names are restricted to characters sanitize_fname leaves alone (alphanumerics, "_", "-", ".").
@@ -333,6 +341,177 @@ def coll_families(bs, n):
     return fams
 
 
+# ------------------------------------------------------------------ histories: hash -> edit in place -> hash
+_ATTR = dict(name="name", grid_n="grid_n", n_mazes="n_mazes", seed="seed", ck="maze_ctor_kwargs", ek="endpoint_kwargs", af="applied_filters")
+
+
+def _raw_to_desc(r):
+    """a request for a FRESH config holding the content read off an object (harness-side; raises on values outside the tree algebra)"""
+    return dict(name=r["name"], grid_n=r["grid_n"], n_mazes=r["n_mazes"], seed=r["seed"], ctor=r["ctor"], ck=untree(r["ck"]), ek=untree(r["ek"]), af=untree(r["af"]), slmin=r["slmin"], slmax=r["slmax"])
+
+
+def _hf(c, bad, who):
+    return _hash_fields(c.stable_hash_cfg(), bad, "hash_" + who)[0], _str(c.to_fname(), bad, "fname_" + who)
+
+
+def _finish_history(rec, c, bad, load, rawfn, to_request, construct):
+    """second half of every history: observe the edited object, a fresh equal config, and the reloaded copy"""
+    stage = "hash after edit"
+    try:
+        rec["after"] = rawfn(c, bad, "after")
+        rec["h1"], rec["f1"] = _hf(c, bad, "1")
+    except BaseException as e:  # noqa: BLE001
+        rec["res"] = _exc(e, stage)
+        return rec
+    try:
+        req = to_request(rec["after"])  # harness-side conversion of the observed content into a request
+    except Exception as e:  # noqa: BLE001
+        raise lib.MachineryError(f"edited content outside the tree algebra: {rec['after']}") from e
+    try:
+        stage = "fresh"
+        fresh = construct(req)
+        rec["fresh"] = rawfn(fresh, bad, "fresh")
+        rec["hf"], rec["ff"] = _hf(fresh, bad, "f")
+        stage = "json.dumps(serialize)"
+        s2 = json.loads(json.dumps(c.serialize()))
+        stage = "load"
+        b = load(s2)
+        rec["reload"] = rawfn(b, bad, "reload")
+        stage = "=="
+        rec["leq"] = bool(b == c) and bool(c == b)
+        stage = "hash of reloaded"
+        rec["hl"], rec["fl"] = _hf(b, bad, "l")
+    except BaseException as e:  # noqa: BLE001
+        rec["res"] = _exc(e, stage)
+    return rec
+
+
+def obs_edit(args):
+    """plain in-place edits: via = setattr (field <- value) | item (dict field [key] <- value) | append (applied_filters.append(value))"""
+    base, via, field, value = args
+    rec = dict(kind="edit", via=via, field=field, d=desc_tree(base), edit=tree(value), res="ok", bad=[])
+    bad = rec["bad"]
+    stage = "build"
+    try:
+        MDC, GM = _libmods()
+        c = build(base)
+        rec["before"] = raw(c, bad, "before")
+        stage = "hash"
+        rec["h0"], rec["f0"] = _hf(c, bad, "0")
+        stage = "edit"
+        v = copy.deepcopy(value)
+        if via == "setattr":
+            setattr(c, "maze_ctor", GM[v]) if field == "ctor" else setattr(c, _ATTR[field], v)
+        elif via == "item":
+            getattr(c, _ATTR[field])[v[0]] = v[1]
+        elif via == "append":
+            c.applied_filters.append(v)
+        else:
+            raise lib.MachineryError(via)
+    except lib.MachineryError:
+        raise
+    except BaseException as e:  # noqa: BLE001
+        rec["res"] = _exc(e, stage)
+        return rec
+    return _finish_history(rec, c, bad, MDC.load, raw, _raw_to_desc, build)
+
+
+LIB_PATHS = ["from_config+collect_generation_meta", "generate+collect_generation_meta", "from_config+update_self_config", "generate+update_self_config", "from_config+filter_path_length"]
+
+
+def obs_edit_lib(args):
+    """the library's own edits of a dataset's config"""
+    base, path = args
+    rec = dict(kind="edit", via="lib:" + path, field="*", d=desc_tree(base), edit=tree(None), res="ok", bad=[])
+    bad = rec["bad"]
+    stage = "build"
+    try:
+        from maze_dataset import MazeDataset
+
+        MDC, _ = _libmods()
+        how, op = path.split("+")
+        cfg = build(base)
+        stage = how
+        ds = MazeDataset.from_config(cfg, load_local=False, save_local=False, do_download=False, gen_parallel=False) if how == "from_config" else MazeDataset.generate(cfg, gen_parallel=False)
+        c = ds.cfg
+        rec["before"] = raw(c, bad, "before")
+        stage = "hash"
+        rec["h0"], rec["f0"] = _hf(c, bad, "0")
+        stage = op
+        if op == "collect_generation_meta":
+            c = ds.filter_by.collect_generation_meta().cfg
+        elif op == "update_self_config":
+            ds.mazes = ds.mazes[: max(1, len(ds.mazes) // 2)]
+            ds.update_self_config()
+            c = ds.cfg
+        else:
+            c = ds.filter_by.path_length(min_length=1).cfg
+    except BaseException as e:  # noqa: BLE001
+        rec["res"] = _exc(e, stage)
+        return rec
+    return _finish_history(rec, c, bad, MDC.load, raw, _raw_to_desc, build)
+
+
+def raw_coll(c, bad, who):
+    return dict(name=_str(getattr(c, "name", None), bad, who + ".name"), members=[raw(m, bad, f"{who}[{k}]") for k, m in enumerate(c.maze_dataset_configs)])
+
+
+def obs_cedit(args):
+    """in-place edits of a collection config: via = name | member_seed | member_filters | append_member | drop_member"""
+    spec, via = args
+    rec = dict(kind="cedit", via=via, d=coll_tree(spec), res="ok", bad=[])
+    bad = rec["bad"]
+    stage = "build"
+    try:
+        from maze_dataset.dataset.collected_dataset import MazeDatasetCollectionConfig as CC
+
+        c = build_coll(spec)
+        rec["before"] = raw_coll(c, bad, "before")
+        stage = "hash"
+        rec["h0"], rec["f0"] = _hf(c, bad, "0")
+        [m.stable_hash_cfg() for m in c.maze_dataset_configs]
+        stage = "edit"
+        if via == "name":
+            c.name = spec["name"] + "_b"
+        elif via == "member_seed":
+            c.maze_dataset_configs[0].seed = 8 if c.maze_dataset_configs[0].seed == 7 else 7  # stays a valid 32-bit seed
+        elif via == "member_filters":
+            c.maze_dataset_configs[-1].applied_filters.append(_f("path_length", 2))
+        elif via == "append_member":
+            c.maze_dataset_configs.append(build(dict(spec["members"][0], name="extra")))
+        else:
+            c.maze_dataset_configs.pop()
+    except BaseException as e:  # noqa: BLE001
+        rec["res"] = _exc(e, stage)
+        return rec
+    return _finish_history(rec, c, bad, CC.load, raw_coll, lambda r: dict(name=r["name"], members=[_raw_to_desc(m) for m in r["members"]]), build_coll)
+
+
+def edit_jobs(bs, per_field):
+    """for every base and every field of the statement: `per_field` other options assigned in place (+ item / append edits)"""
+    jobs = []
+    for k, b in enumerate(bs):
+        for f in FIELDS:
+            opts = [v for v in options(f, b) if _fk(v) != _fk(b[f])]
+            for j in range(min(per_field, len(opts))):
+                jobs.append((b, "setattr", f, opts[(k + j * 7) % len(opts)]))
+        jobs.append((b, "append", "af", _f("path_length", 2 + k)))
+        jobs.append((b, "item", "ek", ["deadend_end", not b["ek"].get("deadend_end", False)]))
+        jobs.append((b, "item", "ek", ["allowed_end", [(0, k % 3), (5, 5)]]))
+        if b["ctor"] != "gen_wilson":
+            jobs.append((b, "item", "ck", ["lattice_dim", 3]))
+    return jobs
+
+
+def lib_bases():
+    """small generatable configs (connected generators; endpoint options every 3x3 / 4x4 maze can satisfy)"""
+    out = []
+    for g, ck in (("gen_dfs", {}), ("gen_dfs", {"do_forks": False}), ("gen_wilson", {}), ("gen_prim", {}), ("gen_dfs_percolation", {"p": 0.2}), ("gen_percolation", {"p": 1.0})):
+        out.append(dict(name="hist", grid_n=3, n_mazes=4, seed=42, ctor=g, ck=ck, ek={}, af=[]))
+    out.append(dict(name="hist", grid_n=4, n_mazes=6, seed=7, ctor="gen_dfs", ck={}, ek={"endpoints_not_equal": True}, af=[]))
+    return out
+
+
 def obs_unit(args):
     """one requested config -> its cfg record and (optionally) both round trips"""
     d, with_rt = args
@@ -570,6 +749,21 @@ def _syn_coll(**over):
     return r
 
 
+def _syn_edit(**over):
+    r = dict(kind="edit", via="setattr", field="seed", res="ok", bad=[], before=_syn(), after=_syn(seed=8), fresh=_syn(seed=8), reload=_syn(seed=8), leq=True,
+             h0=_H1, f0="demo-g10-n5-a_dfs-h123", h1=_H2, f1="demo-g10-n5-a_dfs-h54321", hf=_H2, ff="demo-g10-n5-a_dfs-h54321", hl=_H2, fl="demo-g10-n5-a_dfs-h54321")
+    r.update(over)
+    return r
+
+
+def _syn_cedit(**over):
+    b, a = dict(name="coll", members=[_syn(), _syn(name="second")]), dict(name="coll", members=[_syn(seed=8), _syn(name="second")])
+    r = dict(kind="cedit", via="member_seed", res="ok", bad=[], before=b, after=a, fresh=copy.deepcopy(a), reload=copy.deepcopy(a), leq=True,
+             h0=_H1, f0="collected-coll-n10-h123", h1=_H2, f1="collected-coll-n10-h54321", hf=_H2, ff="collected-coll-n10-h54321", hl=_H2, fl="collected-coll-n10-h54321")
+    r.update(over)
+    return r
+
+
 def _canaries():
     d0 = {k: v for k, v in _syn().items() if k not in ("slmin", "slmax")}
     d1 = dict(d0, seed=8)
@@ -614,6 +808,22 @@ def _canaries():
         (dict(kind="fam", res="ok", bad=[], cfgs=[d0, d1, dict(d0, af=tree([]))], hashes=[_H1, _H2, _H1]), "hash_collision"),
         (dict(kind="fam", res="ok", bad=[], cfgs=[d0, d1, dict(d0)], hashes=[_H1, _H2, _H2]), "equal_configs_hash_differently"),
         (dict(kind="fam", res="ok", bad=[], cfgs=[d0, d1, dict(d0)], hashes=[_H1, _H2, _H1]), "__accept__"),
+        (_syn_edit(), "__accept__"),
+        (_syn_edit(via="lib:from_config+collect_generation_meta", field="*", after=_syn(af=tree([])), fresh=_syn(af=tree([])), reload=_syn(af=tree([]))), "__accept__"),
+        (_syn_edit(h1=_H1, f1="demo-g10-n5-a_dfs-h123"), "hash_stale_after_in_place_edit"),           # the memoised hash: old hash, old name
+        (_syn_edit(h1=_H1, f1="demo-g10-n5-a_dfs-h123"), "fname_stale_after_in_place_edit"),
+        (_syn_edit(h1=_H1, f1="demo-g10-n5-a_dfs-h123"), "reloaded_copy_hashes_differently"),
+        (_syn_edit(h1=_H1, hl=_H1), "hash_stale_after_in_place_edit"),                                 # stale everywhere: still not the fresh hash
+        (_syn_edit(hf=_H1), "hash_stale_after_in_place_edit"),
+        (_syn_edit(fl="demo-g10-n5-a_dfs-h123"), "reloaded_copy_hashes_differently"),
+        (_syn_edit(leq=False), "reloaded_copy_not_equal"),
+        (_syn_edit(reload=_syn()), "reloaded_copy_not_equal"),
+        (_syn_edit(after=_syn(), fresh=_syn(), reload=_syn()), "H:edit_malformed"),
+        (_syn_edit(field="name"), "H:edit_malformed"),
+        (_syn_edit(res="raise:AttributeError@edit"), "unexpected_exception"),
+        (_syn_cedit(), "__accept__"),
+        (_syn_cedit(h1=_H1, f1="collected-coll-n10-h123"), "hash_stale_after_in_place_edit"),
+        (_syn_cedit(hl=_H1), "reloaded_copy_hashes_differently"),
         (_syn_coll(), "__accept__"),
         (_syn_coll(bm=[_syn(), _syn(name="second", af=tree([{"name": "path_length", "args": [3], "kwargs": {}}]))]), "member_changed"),
         (_syn_coll(bm=[_syn()]), "member_changed"),
@@ -693,6 +903,10 @@ def main(chk: lib.Check) -> int:
     chk.add_model("ConfigId/drop_seed", r, "seed left out of the serialized content: TLC rejects IdentityInv (non-vacuity)")
     r = lib.tlc_expect_violation("ConfigId", "ConfigId_notuples.cfg", "RoundTripInv", tag="n")
     chk.add_model("ConfigId/no_tuples", r, "Load does not restore tuples: TLC rejects RoundTripInv (non-vacuity)")
+    r = lib.tlc_design("ConfigId", "ConfigId_edit.cfg", expect_actions=["Observe", "Edit"], tag="e")
+    chk.add_model("ConfigId/edit", r, "histories build -> Observe -> Edit(field, value) -> Observe -> Edit -> Observe over 180 configs x every field/value: an observed hash is HashKey(current content)")
+    r = lib.tlc_expect_violation("ConfigId", "ConfigId_memo.cfg", "HashFollowsInv", tag="m")
+    chk.add_model("ConfigId/memo_hash", r, "hash cached on the object without invalidation: TLC rejects HashFollowsInv (non-vacuity)")
     if thorough:
         r = lib.tlc_design("ConfigId", "ConfigId_full.cfg", expect_actions=["Vary"], tag="f")
         chk.add_model("ConfigId/full", r, "12960 configs (5 kwargs x 9 endpoint options x 6 filter lists) x every one-field variant")
@@ -755,6 +969,13 @@ def main(chk: lib.Check) -> int:
     coll_out = lib.pmap(obs_coll, cspecs, chunksize=4)
     recs += coll_out
     recs += lib.pmap(obs_cline, cfams, chunksize=1)
+    # histories with in-place edits (plain assignments on every field, the library's own edit paths, collections)
+    ejobs = edit_jobs(bs if thorough else bs[:16], 3 if thorough else 2)
+    hist = lib.pmap(obs_edit, ejobs, chunksize=8)
+    hist += lib.pmap(obs_edit_lib, [(b, p) for b in lib_bases() for p in LIB_PATHS], chunksize=2)
+    hist += lib.pmap(obs_cedit, [(fam[0], via) for fam in cfams for via in ("name", "member_seed", "member_filters", "append_member", "drop_member")], chunksize=2)
+    recs += hist
+    chk.notes["histories"] = dict(plain_edits=len(ejobs), library_paths=LIB_PATHS, library_histories=len(lib_bases()) * len(LIB_PATHS), collection_histories=len(cfams) * 5)
     # other interpreter processes
     stride = max(1, len(ulist) // (12000 if thorough else 400))
     pidx = sorted(set(range(0, len(ulist), stride)) | set(range(len(ulist) - len(extra), len(ulist))))
@@ -775,7 +996,9 @@ def main(chk: lib.Check) -> int:
     kinds = {}
     for x in recs:
         kinds[x["kind"]] = kinds.get(x["kind"], 0) + 1
-        if x["kind"] in ("coll", "cline") or "members" in x.get("d", {}):
+        if x["kind"] in ("edit", "cedit"):
+            chk.count([x["kind"], x["via"], x.get("field", ""), x["d"], x.get("edit", 0)], True)
+        elif x["kind"] in ("coll", "cline") or "members" in x.get("d", {}):
             chk.count([x["kind"], x.get("d", x.get("hashes"))], True)
         elif x["kind"] in ("cfg", "rt", "proc"):
             chk.count([x["kind"], x.get("path", ""), x["d"]], nontrivial(x["d"]))
@@ -804,6 +1027,7 @@ def main(chk: lib.Check) -> int:
         (lambda x: x and {k: v for k, v in x.items() if k != "ser"})(first(lambda x: x["kind"] == "rt" and x["path"] == "json" and x["res"] == "ok" and x["d"]["ek"]["v"] and x["d"]["af"]["v"])),
         (lambda x: x and dict(kind="line", field=x["field"], n=len(x["cfgs"]), first=x["cfgs"][:2], hashes=x["hashes"][:2]))(first(lambda x: x["kind"] == "line" and x["field"] == "ek")),
         first(lambda x: x["kind"] == "proc"),
+        (lambda x: x and {k: v for k, v in x.items() if k not in ("fresh", "reload", "d")})(first(lambda x: x["kind"] == "edit" and x["via"].startswith("lib:") and x["res"] == "ok")),
     ):
         if smp:
             chk.sample(smp)
@@ -842,6 +1066,13 @@ def reobserve(case):
         if k == "coll":
             return obs_coll(sp)
         return (proc_records([sp], [obs_coll(sp)], run_children([sp])) or [obs_coll(sp)])[0]
+    if k == "edit":
+        base = desc_untree(case["d"])
+        if case["via"].startswith("lib:"):
+            return obs_edit_lib((base, case["via"][4:]))
+        return obs_edit((base, case["via"], case["field"], untree(case["edit"])))
+    if k == "cedit":
+        return obs_cedit((dict(name=case["d"]["name"], members=[desc_untree(t) for t in case["d"]["members"]]), case["via"]))
     if k == "cline":
         return obs_cline([dict(name=c["name"], members=[desc_untree(t) for t in c["members"]]) for c in case["colls"]])
     if k == "proc":
@@ -856,7 +1087,7 @@ def replay(path: str) -> int:
     rec["id"] = 0
     out = lib.oracle("Trace_ConfigId", [rec], tag="rp")
     v = out.verdicts.get(0, [])
-    show = {k: rec[k] for k in rec if k in ("kind", "path", "res", "bad", "field", "hash", "fname", "hashes", "obs", "lib_eq", "same_fn", "ho", "hb", "fo", "fb")}
+    show = {k: rec[k] for k in rec if k in ("kind", "path", "res", "bad", "field", "hash", "fname", "hashes", "obs", "lib_eq", "same_fn", "ho", "hb", "fo", "fb", "via", "field", "h0", "h1", "hf", "hl", "f0", "f1", "ff", "fl", "leq")}
     print("replay:", json.dumps(show)[:700], "verdict:", v)
     if any(not c.startswith("M:") for c in v):
         print(f"VIOLATION property=C18 replay={path}")
